@@ -468,6 +468,8 @@ def entropy_kernels(prog):
     out = {}
     from .facts import inline_calls
     from .rules_zones import helper_filter
+    if hasattr(prog, "inlined_view"):
+        prog = prog.inlined_view()       # a shared `zip_map_sum(p, q, |p, q| term)` helper is read in place, its Zip closure per caller
     # entropy: -sum(mapv(self, closure))          (private helpers of the module are read in place)
     root = inline_calls(prog, prog.method("EntropyExt", "entropy"), helper_filter(prog))
     tb = prog.tracked(root)
@@ -494,7 +496,14 @@ def entropy_kernels(prog):
             continue
         # closure params: result (&mut A), p, q ;  `*result = term`
         tb = prog.tracked(cb)
-        K, tbc, paths, results, upd_sites = T.closure_function(prog, cb, {3: ("sym", "p"), 4: ("sym", "q")})
+        def _ul(u, _cb=cb):
+            # a captured closure of the routine (the per-element term handed to a shared helper) is called as that closure
+            pb_, pe_ = up(prog, _cb, u)
+            pe_ = ds(pe_)
+            if isinstance(pe_, tuple) and pe_[:2] == ("agg", "closure") and pe_[2] in prog.bodies:
+                return ("closureval", pe_[2], pe_[3], Kernel(prog, prog.tracked(pb_), lambda e_: None))
+            return None
+        K, tbc, paths, results, upd_sites = T.closure_function(prog, cb, {3: ("sym", "p"), 4: ("sym", "q")}, upvar_leaf=_ul)
         # stores through param 2
         items = []
         stores = []
@@ -923,10 +932,20 @@ def west_recurrence(prog):
         raise Unrecognised("iterator is not zip(a, b)")
     isyms = T.item_symbols(item, ("x", "w"))
     carried = [l for l in lp.carried if l != il and tb.local_name(l)]
-    phis = {ds(lp.head_phi(l)): ("sym", "S_" + tb.local_name(l)) for l in carried}
+    # a running state kept as one tuple local (`state = step(state, x, w)`): its components are the state variables
+    tuple_carried = {l: len([c for c in (tb.local_ty(l) or "")[1:-1].split(",") if c.strip()])
+                     for l in carried if (tb.local_ty(l) or "").startswith("(") and (tb.local_ty(l) or "").endswith(")")}
+    tphis = {ds(lp.head_phi(l)): tb.local_name(l) for l in tuple_carried}
+    phis = {ds(lp.head_phi(l)): ("sym", "S_" + tb.local_name(l)) for l in carried if l not in tuple_carried}
     params = {l: ("sym", tb.local_name(l)) for l in range(1, tb.arg_count + 1)}
 
     def leaf(e):
+        if isinstance(e, tuple) and e[0] == "field" and str(e[2]).isdigit() and ds(e[1]) in tphis:
+            return ("sym", "S_%s_%s" % (tphis[ds(e[1])], e[2]))
+        if e in tphis:
+            nm_ = tphis[e]
+            n_ = [n2 for l2, n2 in tuple_carried.items() if tb.local_name(l2) == nm_][0]
+            return ("tuple",) + tuple(("sym", "S_%s_%d" % (nm_, k_)) for k_ in range(n_))
         if e in phis:
             return phis[e]
         if e in isyms:
@@ -938,6 +957,14 @@ def west_recurrence(prog):
     state = {}
     for l in carried:
         nm = tb.local_name(l)
+        if l in tuple_carried:
+            ti, ts = K.term(lp.init_expr(l)), K.term(lp.step_expr(l))
+            n_ = tuple_carried[l]
+            if not (isinstance(ti, tuple) and ti[0] == "tuple" and len(ti) == n_ + 1 and isinstance(ts, tuple) and ts[0] == "tuple" and len(ts) == n_ + 1):
+                raise Unrecognised("tuple state `%s` is not initialised / updated component-wise" % nm)
+            for k_ in range(n_):
+                state["%s_%d" % (nm, k_)] = dict(init=ti[k_ + 1], step=ts[k_ + 1])
+            continue
         state[nm] = dict(init=K.term(lp.init_expr(l)), step=K.term(lp.step_expr(l)))
     # result
     r = ds(tb.return_expr())
@@ -1634,7 +1661,8 @@ def rule_c12_structure(ctx, prog, rule="R13"):
         mb = prog.find("histogram::strategies::Auto<T> as histogram::strategies::BinsBuildingStrategy>::%s" % m)
         from .facts import inline_calls
         # the dispatch may live in a private method of the enum itself
-        mb = inline_calls(prog, mb, lambda cb: cb.key not in prog.exported and "SturgesOrFD" in cb.key and not cb.raw.get("unsafe_fn"))
+        mb = inline_calls(prog, mb, lambda cb: cb.key not in prog.exported and not cb.is_closure and not cb.raw.get("unsafe_fn") and
+                          ("SturgesOrFD" in cb.key or ("strategies::Auto" in cb.key and cb.name not in ("build", "n_bins", "from_array"))))
         # every return path returns, unchanged, the result of the variant's own method on that variant's payload
         from .paths import enumerate_paths, resolve_phi, NotLoopFree
         vs = set()
@@ -1660,6 +1688,21 @@ def rule_c12_structure(ctx, prog, rule="R13"):
                     good = variant in callee_self and base == ("field", ("param", 1, "self"), "builder")
                     if good:
                         vs.add(variant)
+                # ((self.builder as Variant).0).builder handed to EquiSpaced's own method: what the variant's method does itself
+                # (Variant::build/n_bins = self.builder.build()/n_bins() is the `<Variant>::<m>/delegates` obligation)
+                if not good and isinstance(a0, tuple) and a0[0] == "field" and str(a0[2]) == "builder":
+                    a1 = ds(a0[1])
+                    for _ in range(3):
+                        if isinstance(a1, tuple) and a1[0] in ("ref", "deref"):
+                            a1 = ds(a1[1])
+                    if isinstance(a1, tuple) and a1[0] == "field" and isinstance(ds(a1[1]), tuple) and ds(a1[1])[0] == "downcast":
+                        base = ds(ds(a1[1])[1])
+                        variant = ds(a1[1])[2]
+                        site = mb.site_term(r[4])
+                        good = "EquiSpaced" in ((site["callee"].get("path") or "") + (site["callee"].get("self_ty") or "")) and \
+                            base == ("field", ("param", 1, "self"), "builder")
+                        if good:
+                            vs.add(variant)
             ok = ok and good
         ok = ok and vs == {"Sturges", "FreedmanDiaconis"}
         ctx.ob("R13", "Auto::%s/dispatch" % m, ok, mb.where(), "each variant dispatches to its own %s()" % m if ok else
@@ -1912,8 +1955,9 @@ def _raw_moment_shape(prog, seg):
 def rule_moments_vector(ctx, prog, rule="R13"):
     """shape of the raw-moment vector built by the private `moments`: entry k is the k-th raw moment for every k <= order"""
     # prefix independence of `moments`: the k-th raw moment does not depend on `order`, and it is exactly Σ x^k / n
-    mo = prog.find("summary_statistics::means::moments")
-    tm = prog.tracked(mo)
+    _pv = prog.inlined_view() if hasattr(prog, "inlined_view") else prog        # conversion helpers in front of from_usize are read in place
+    mo = _pv.find("summary_statistics::means::moments")
+    tm = _pv.tracked(mo)
     okm = False
     detail = "anchor not recognised: the raw moments for k >= 2 are not produced by one loop / extend(map) over k"
     bulk = _bulk_build(prog, tm)
@@ -2490,8 +2534,9 @@ def rule_moment_pipeline(ctx, prog, rule="R19"):
     except Unrecognised as ex:
         unrec(ctx, rule, "horner_method/recurrence", hb.where(), ex)
     # raw moments: m_0 = one(), m_1 = Σ/n, m_k = Σ x^k / n
-    mo = prog.find("summary_statistics::means::moments")
-    tm = prog.tracked(mo)
+    _pv = prog.inlined_view() if hasattr(prog, "inlined_view") else prog        # conversion helpers in front of from_usize are read in place
+    mo = _pv.find("summary_statistics::means::moments")
+    tm = _pv.tracked(mo)
     try:
         from . import vecbuild as VB
         bulk = _bulk_build(prog, tm)
